@@ -63,6 +63,10 @@ func fmtInputs(cfg *vh.Config, label string, nGen, nCorpus, nSeq int) []fmtInput
 			nDeep++
 		}
 	}
+	// the byte level: valid multi-byte and every kind of invalid UTF-8 in every literal kind (pinned)
+	for i, s := range utf8Corpus() {
+		out = append(out, fmtInput{s, "utf8", cfg.Tier == "thorough" || i%3 == int(cfg.Seed%3)})
+	}
 	corpus := loadCorpus()
 	for i, f := range corpus {
 		out = append(out, fmtInput{f, "file", cfg.Tier == "thorough" || i < 3})
